@@ -39,7 +39,11 @@ def snap(o, depth=0):
     return ["obj", type(o).__name__, sorted(d.items())]
 
 
-def gen_problem(seed):
+def gen_problem(seed, vary=None):
+    """a place-and-route problem drawn from `seed`; `vary` = k gives a TWIN of it that differs in exactly
+    one aspect (dead links, a dead chip, chip resource exceptions, net weights, one constraint, one
+    vertex's resources, wrap-around links): histories mix twins so that anything remembered about an
+    earlier call under a key that omits that aspect shows up in the probe"""
     from rig.place_and_route import Machine, Cores, SDRAM
     from rig.netlist import Net
     from rig.links import Links
@@ -75,6 +79,42 @@ def gen_problem(seed):
             cons.append(SameChipConstraint([a, b]))
     if r.random() < 0.5:
         cons.append(AlignResourceConstraint(SDRAM, 4))
+    if vary is not None:
+        q = random.Random(seed * 31 + vary)
+        kind = vary % 7
+        located = set(c.location for c in cons if isinstance(c, LocationConstraint))
+        if kind == 0:       # dead links: none <-> some
+            dead_links = set() if dead_links else set((c[0], c[1], l) for c in q.sample(chips, min(3, len(chips)))
+                                                      for l in q.sample(list(Links), 2))
+        elif kind == 1:     # one chip dies / comes back
+            if dead:
+                dead = set()
+            else:
+                cand = [c for c in chips[1:] if c not in located]
+                dead = set(q.sample(cand, 1)) if cand else dead
+                exc = {c: v for c, v in exc.items() if c not in dead}
+        elif kind == 2:     # chip resource exceptions
+            c = q.choice([c for c in chips if c not in dead])
+            exc = dict(exc)
+            exc[c] = {Cores: q.choice([9, 16]), SDRAM: 96}
+        elif kind == 3:     # net weights
+            nets = [Net(n_.source, list(n_.sinks), n_.weight + 1.0 + i) for i, n_ in enumerate(nets)]
+        elif kind == 4:     # one constraint fewer / one more
+            cons = cons[:-1] if len(cons) > 1 else cons + [AlignResourceConstraint(SDRAM, 8)]
+        elif kind == 5:     # one vertex needs more
+            v = q.randrange(n)
+            vr = dict(vr)
+            vr[v] = {Cores: vr[v][Cores] + 1, SDRAM: vr[v][SDRAM] + 4}
+        else:               # the wrap-around links all die (torus -> mesh) / all other links as before
+            dead_links = set(dead_links)
+            for x in range(w):
+                dead_links |= {(x, h - 1, Links.north), (x, 0, Links.south), (x, h - 1, Links.north_east),
+                               (x, 0, Links.south_west)}
+            for y in range(h):
+                dead_links |= {(w - 1, y, Links.east), (0, y, Links.west), (w - 1, y, Links.north_east),
+                               (0, y, Links.south_west)}
+        m = Machine(w, h, chip_resources={Cores: 18, SDRAM: 128}, chip_resource_exceptions=exc,
+                    dead_chips=dead, dead_links=dead_links)
     return m, vr, nets, cons
 
 
@@ -99,6 +139,7 @@ def do_call(spec):
     """returns (canonical result, [snapshots of arguments before], [after])"""
     warnings.simplefilter("ignore")
     fn, seed = spec["fn"], spec["seed"]
+    vary = spec.get("vary")
     random.seed(seed * 7 + 1)
     from rig.place_and_route import place as sa_place, allocate, route
     from rig.place_and_route.place import sequential, hilbert, rcm, breadth_first, rand
@@ -110,7 +151,7 @@ def do_call(spec):
     args, result, before = [], None, []
 
     def staged(upto):
-        m, vr, nets, cons = gen_problem(seed)
+        m, vr, nets, cons = gen_problem(seed, vary)
         st = {"m": m, "vr": vr, "nets": nets, "cons": cons}
         st["placements"] = sequential.place(vr, nets, m, cons)
         if upto == "placed":
@@ -128,7 +169,7 @@ def do_call(spec):
 
     try:
         if fn.startswith("place_"):
-            m, vr, nets, cons = gen_problem(seed)
+            m, vr, nets, cons = gen_problem(seed, vary)
             args = [m, vr, nets, cons]
             before = [snap(a) for a in args]
             which = fn[6:]
@@ -237,6 +278,32 @@ def do_call(spec):
             before = []
             result = [inst.get_value(), inst.get_mask(), sorted(
                 (nm,) + tuple(inst.get_location_and_length(nm)) for nm in names)]
+        elif fn == "bitfield_tagsets":
+            # tags handed over as the caller's own mutable collections (sets / lists), the SAME object used
+            # for fields of two separately created bit fields; child fields add further tags
+            from rig.bitfield import BitField, UnknownTagError
+            r = random.Random(seed)
+            shared = r.choice([set, list])(r.sample(["routing", "payload", "x", "y"], r.randrange(1, 3)))
+            other = r.choice([set, list])(["extra"])
+            args = [shared, other]
+            before = [snap(a) for a in args]
+            res = []
+            bfs = [BitField(32), BitField(32)]
+            for i, bf in enumerate(bfs):
+                bf.add_field("kind", length=2, tags=shared)
+                bf.add_field("aux", length=3, tags=other if i == 0 else None)
+            sub = bfs[r.randrange(2)](kind=r.randrange(4))
+            sub.add_field("child", length=r.randrange(1, 4), tags=r.choice(["deep", "deep payload", "x deep"]))
+            for bf in bfs:
+                bf.assign_fields()
+                row = [sorted(bf.get_tags("kind")), sorted(bf.get_tags("aux"))]
+                for tag in ["routing", "payload", "x", "y", "extra", "deep"]:
+                    try:
+                        row.append([tag, bf.get_mask(tag=tag)])
+                    except UnknownTagError:
+                        row.append([tag, None])
+                res.append(row)
+            result = res
         elif fn == "hexagons":
             from rig.place_and_route.route import ner
             result = [list(c) for c in ner.memoized_concentric_hexagons(seed % 7)]
@@ -316,7 +383,7 @@ def do_call(spec):
 
 
 FNS = ["place_sequential", "place_seqcustom", "place_seqcustom", "place_hilbert", "place_rcm", "place_breadth_first", "place_rand", "place_sa",
-       "allocate", "route", "route", "tables", "minimise_tables", "minimise_oc", "minimise_rdr", "oc_aliases", "oc_aliases", "bitfield", "controller", "boot", "hexagons", "hexagons"]
+       "allocate", "route", "route", "tables", "minimise_tables", "minimise_oc", "minimise_rdr", "oc_aliases", "oc_aliases", "bitfield", "bitfield_tagsets", "controller", "boot", "hexagons", "hexagons"]
 
 
 if __name__ == "__main__":
